@@ -47,6 +47,13 @@ def _normalise(node):
             v = _rust_str(node["dbg"])
             if v is not None:
                 node["str"] = v
+        if node.get("k") == "const" and "dbg" in node and "int" not in node and node.get("ty") == "char":
+            d = node["dbg"]
+            if len(d) >= 3 and d[0] == "'" and d[-1] == "'":
+                v = _rust_str('"' + d[1:-1] + '"')
+                if v is not None and len(v) == 1:
+                    node["int"] = ord(v)
+                    node["bits"] = 32
         for v in node.values():
             if isinstance(v, (dict, list)):
                 _normalise(v)
